@@ -1383,6 +1383,17 @@ class Interp:
         if isinstance(base, Vec):
             if isinstance(idx, Num):
                 k = nf.as_int(idx.nf)
+                if k is None and base.over and nf.key(idx.nf) not in base.over:
+                    # a symbolic position may coincide with an explicitly stored one (the first element of
+                    # np.diff(x, prepend=c), a boundary entry): that case is a trace partition of its own
+                    for _kk, (pos, val) in sorted(base.over.items(), key=lambda kv: repr(kv[0])):
+                        d = nf.sub(idx.nf, pos)
+                        if nf.is_const(d):
+                            continue  # differs from the stored position by a non-zero constant
+                        if nf.depends(d, "@J"):
+                            continue  # generic element of a vector expression, handled positionally
+                        if self.decide(BoolV("cmp", idx.nf, pos, "=="), node):
+                            return Num(val)
                 return Num(base.at(base.norm_pos(k) if k is not None else idx.nf))
             if _is_slice(idx):
                 return self._slice_vec(base, idx)
@@ -2071,6 +2082,14 @@ def _h_arange(it, args, kwargs, bound, node, qual):
     else:
         return None
     gen = nf.add(start, nf.mul(step, nf.sym(J)))
+    try:
+        ratio = nf.div(nf.sub(stop, start), step)
+        if nf.as_int(step) is None and nf.is_const(ratio) and nf.cval(ratio).denominator == 1:
+            # the stop is an exact multiple of a non-integer step away from the start: whether the end point is included
+            # (n or n + 1 elements) is decided by the rounding of (stop - start) / step
+            it.log("arange_hazard", node, start=Num(start), stop=Num(stop), step=Num(step), count=Num(ratio))
+    except Exception:  # noqa: BLE001
+        pass
     if not start and step == nf.ONE:
         length = stop
     else:
@@ -2293,7 +2312,7 @@ def _h_masked_store(it, args, kwargs, bound, node, qual):
 
 
 def _h_ufunc(it, args, kwargs, bound, node, qual):
-    """np.add / subtract / multiply / divide / power / negative / square / reciprocal are the arithmetic operators"""
+    """np.add / subtract / multiply / divide / power / negative / square are the arithmetic operators"""
     name = qual.split(".")[-1]
     ops = {"add": ast.Add, "subtract": ast.Sub, "multiply": ast.Mult, "divide": ast.Div, "true_divide": ast.Div, "power": ast.Pow, "float_power": ast.Pow}
     if set(kwargs) - {"out", "dtype"}:
@@ -2306,9 +2325,42 @@ def _h_ufunc(it, args, kwargs, bound, node, qual):
         return it._binop(ast.Sub(), const_num(0), args[0], node)
     if name == "square" and len(args) == 1:
         return it._binop(ast.Mult(), args[0], args[0], node)
-    if name == "reciprocal" and len(args) == 1:
-        return it._binop(ast.Div(), const_num(1), args[0], node)
+    # np.reciprocal is NOT 1 / x: on an integer array it is integer reciprocal (0 for every |x| > 1) - kept opaque
     return None
+
+
+def _h_average(it, args, kwargs, bound, node, qual):
+    """np.average(x, weights=w) over literal sequences: sum(w_i x_i) / sum(w_i) - the division by the weight sum is kept
+    (it is what fails when all weights vanish)"""
+    w = kwargs.get("weights", args[1] if len(args) > 1 else None)
+    if not args or w is None or set(kwargs) - {"weights"}:
+        return None
+    x = args[0]
+    if isinstance(x, TupV) and isinstance(w, TupV) and len(x.items) == len(w.items) and not x.rowview and not w.rowview:
+        num, den = {}, {}
+        for a, b in zip(x.items, w.items):
+            num = nf.add(num, nf.mul(it.to_nf(a), it.to_nf(b)))
+            den = nf.add(den, it.to_nf(b))
+        it.log("weighted_average", node, weights_sum=Num(den))
+        return Num(nf.div(num, den))
+    return None
+
+
+def _h_select(it, args, kwargs, bound, node, qual):
+    """np.select(condlist, choicelist, default=0): a fresh float buffer filled with `default` and overwritten, for each
+    condition in turn, where that condition holds (masked stores; the first true condition wins)"""
+    conds = bound.get("condlist", args[0] if args else None)
+    vals = bound.get("choicelist", args[1] if len(args) > 1 else None)
+    if not (isinstance(conds, TupV) and isinstance(vals, TupV) and len(conds.items) == len(vals.items) and all(isinstance(c, BoolV) for c in conds.items)):
+        return None
+    default = bound.get("default", kwargs.get("default", args[2] if len(args) > 2 else const_num(0)))
+    b = Buf(default, None, creator="select", node=node, kwargs={"dtype": ExtV("numpy.float64")})
+    it.log("alloc", node, buf=b, callee=qual, args=bound)
+    # later conditions apply only where no earlier one held; stored in reverse so that earlier stores overwrite later ones
+    for c, v in reversed(list(zip(conds.items, vals.items))):
+        vv = it._index(v, c, node) if not (isinstance(v, Num) and nf.is_const(v.nf)) else v
+        it._store_index(b, c, vv, node)
+    return b
 
 
 def _h_mappingproxy(it, args, kwargs, bound, node, qual):
@@ -2488,7 +2540,9 @@ _EXT_HANDLERS = {
     "dict": _h_dict,
     "types.MappingProxyType": _h_mappingproxy,
     "bool": _h_bool,
-    **{"numpy." + k: _h_ufunc for k in ("add", "subtract", "multiply", "divide", "true_divide", "power", "float_power", "negative", "square", "reciprocal")},
+    "numpy.select": _h_select,
+    "numpy.average": _h_average,
+    **{"numpy." + k: _h_ufunc for k in ("add", "subtract", "multiply", "divide", "true_divide", "power", "float_power", "negative", "square")},
     "zip": _h_zip,
     "numpy.place": _h_masked_store,
     "numpy.putmask": _h_masked_store,
